@@ -138,6 +138,42 @@ def seq_b(rep, max_ch, ops, lines, expect, label):
                 expect += [None, proj('ok')]
 
 
+def seq_alloc_during_closeok(rep, rng):
+    """the broker closes channel v; while the reader is writing the Channel.CloseOk another thread asks for a channel
+    number (emulated at that very point, from the write hook): v is not free before the CloseOk is out"""
+    import amqpstorm
+    from amqpstorm.channel import Channel
+    max_ch = rng.randint(1, 4)
+    conn = amqpstorm.Connection('localhost', 'guest', 'guest', lazy=True)
+    conn.set_state(3)
+    conn._channel0.max_allowed_channels = max_ch
+    chans = {}
+    for i in range(1, max_ch + 1):
+        c = Channel(i, conn, 1)
+        c.set_state(3)
+        conn._channels[i] = c
+        chans[i] = c
+    v = rng.randint(1, max_ch)
+    conn._last_channel_id = rng.choice([None, v, max_ch])
+    got = {}
+
+    def write_frame(cid, fr):
+        if fr.name == 'Channel.CloseOk' and 'id' not in got:
+            try:
+                got['id'] = conn._get_next_available_channel_id()
+            except amqpstorm.AMQPConnectionError:
+                got['id'] = None
+    conn.write_frame = write_frame
+    chans[v].on_frame(spec.Channel.Close(reply_code=404, reply_text='gone'))
+    replay = {'kind': 'seq-alloc-during-closeok', 'max': max_ch, 'victim': v}
+    if got.get('id') == v:
+        rep.violation('C10/id-free-before-closeok', 'channel number %d was handed out while the CloseOk for the broker\'s close of it was '
+                      'still being written (every number was in use)' % v, replay)
+    elif 'id' in got and got['id'] is not None:
+        rep.violation('C10/duplicate-live-id', 'allocation during the CloseOk write returned %r although all numbers are in use' % (got['id'],), replay)
+    rep.case(('seq-alloc-during-closeok', max_ch, v), True, sample=replay)
+
+
 def cosim_one(args):
     sc, seed = args
     import amqpstorm
@@ -188,6 +224,18 @@ def cosim_one(args):
                             results.append(('opened', ch.channel_id))
                         elif op == 'close' and mine:
                             mine.pop(0).close()
+                        elif op == 'cclose' and mine:
+                            # close a channel that has a consumer and a returned message parked on it: cancelling the
+                            # consumer fails with that error, the Channel.Close must go out all the same
+                            ch = mine.pop(0)
+                            ch.basic.consume(lambda m: None, 'cq')
+                            broker.send_content(ch.channel_id, spec.Basic.Return(reply_code=312, reply_text='NO_ROUTE', exchange='', routing_key='x'),
+                                                spec.Basic.Properties(), b'rr', reply=False)
+                            amqpstorm.channel.time.sleep(0.02)
+                            try:
+                                ch.close()
+                            except amqpstorm.AMQPMessageError:
+                                pass
                         elif op == 'bclose' and mine:
                             ch = mine.pop(0)
                             broker.close_channel(ch.channel_id)
@@ -295,6 +343,8 @@ def check(rep):
         expect += ['ok', exp]
         meta += [('seq-a-random', max_ch, last, reg)] * 2
     rep.count('seq', 'A', len(lines) // 2)
+    for _ in range(20 if not thorough else 200):
+        seq_alloc_during_closeok(rep, rng)
     # ---- SEQ-B sequences ------------------------------------------------------------------------
     alphabet = [('open',), ('close', 0), ('close', 1), ('bclose', 0), ('bclose', 1)]
     maxlen = 5 if not thorough else 7
@@ -317,7 +367,7 @@ def check(rep):
     jobs = []
     for _ in range(60 if not thorough else 1500):
         sc = {'max': rng.randint(1, 4),
-              'workers': [[rng.choice(['open', 'open', 'close', 'bclose']) for _ in range(rng.randint(1, 5))]
+              'workers': [[rng.choice(['open', 'open', 'open', 'close', 'close', 'bclose', 'bclose', 'cclose']) for _ in range(rng.randint(1, 5))]
                           for _ in range(rng.randint(2, 4))]}
         jobs.append((sc, rng.randrange(1 << 30)))
     results = par.pmap(cosim_one, jobs)
